@@ -49,6 +49,8 @@ def gen_case(rng, i):
     refmode = rng.choice(['explicit', 'dot', 'none', 'glob']) if names else rng.choice(['none', 'dot'])
     if refmode == 'glob' and not all(n.startswith('out') and '/' not in n for n in names):
         refmode = 'explicit'
+    if any(n.startswith('../') for n in names):
+        refmode = 'explicit'             # files outside the working directory are only checked when named
     if script == 'OMIT':
         refmode = 'none'
     return {'spec': spec, 'flags': flags, 'iterations': it, 'script': script, 'refmode': refmode, 'decoys': rng.random() < 0.7,
